@@ -17,7 +17,7 @@ ASSUMPTIONS = ["'assign' means setattr / attribute assignment; del, __dict__ pok
 
 # the last ones: values that are costly or impossible to render (CPython refuses str() of ints beyond 4300 digits)
 VALUES = [0, 1, -1, 3.5, "x", b"\x00", None, True, [], {"a": 1}, 1 << 16384, [-(1 << 20000)], "y" * 100000, float("nan"), len, lambda *a, **k: b"\xd3\x00\x00", bytes]
-FRESH = ["foo", "DF999", "x", "_y", "__z", "NSat2", "payload2", "DF002_01", "_immutable", "payload", "identity", "ismsm", "_payload", "_payloadi", "_payblen", "_labelmsm", "_unknown", "_satmap", "_cellmap", "__dict__", "__class__", "100%", "%d", "%(b)s", "a%", "{}", "{0}", "{name}", "a b", "", "\u00e9", "\\", "DF002\n", "1DF", "serialize", "_do_attributes", "_get_dict", "__str__", "__repr__", "__setattr__", "__init__"]
+FRESH = ["foo", "DF999", "x", "_y", "__z", "NSat2", "payload2", "DF002_01", "_immutable", "payload", "identity", "ismsm", "_payload", "_payloadi", "_payblen", "_labelmsm", "_unknown", "_satmap", "_cellmap", "__dict__", "__class__", "100%", "%d", "%(b)s", "a%", "{}", "{0}", "{name}", "a b", "", "\u00e9", "\\", "DF002\n", "1DF", "serialize", "_do_attributes", "_get_dict", "__str__", "__repr__", "__setattr__", "__init__", "DF025_\u00b2", "x_1_\u2460", "DF009_" + "7" * 4301, "DF009_\u0663"]
 
 
 def _r(v):
@@ -161,6 +161,8 @@ def o_setattr(case):
     if any(t in ("payload", "identity", "ismsm") for t in touched):
         cls.append("touch-property")
     cls.append("source-" + case.get("source", "ctor"))
+    if case.get("zerocrc"):
+        cls.append("frame-checksum-000000")
     if case.get("interleave"):
         cls.append("other-constructions-interleaved")
     return Res(nontrivial=derived or private, classes=cls, evals=len(case["ops"]))
@@ -175,9 +177,15 @@ def s_setattr(draw, tier):
         c = draw(st.sampled_from([i for i in gen.all_idents_safe() if "1070" < i < "1140"]).flatmap(lambda i: gen.messages(i, "small")))
     else:
         c = {"payload": draw(gen.unknown_payloads("small")).hex()}
+    if draw(st.integers(0, 9)) == 0:
+        # the same message with three bytes appended that make the checksum of its frame 000000 (a value like any other)
+        from pv import framing
+
+        c = {"payload": framing.frame_with_trailer(bytes.fromhex(c["payload"])[:1020], b"\0\0\0")[3:-3].hex(), "zerocrc": True}
     ops = draw(st.lists(st.tuples(st.integers(-len(FRESH), 400), st.integers(0, len(VALUES) - 1)), min_size=1, max_size=12))
     return {
         "payload": c["payload"],
+        "zerocrc": bool(c.get("zerocrc")),
         "labelmsm": draw(st.sampled_from([1, 2])),
         "ops": [list(o) for o in ops],
         "direct": draw(st.booleans()),
@@ -194,5 +202,5 @@ def _short(c):
 
 
 SUBS = [
-    Sub("setattr_sequences", o_setattr, strategy=s_setattr, examples=(200, 4000), rule="touches a derived MSM attribute or a private name", need={"msm": 1, "stub": 1, "touch-private": 1, "touch-derived": 1, "touch-property": 1, "source-reader-socket": 1, "source-pickle": 1, "source-copy": 1, "other-constructions-interleaved": 1}, sample=_short),
+    Sub("setattr_sequences", o_setattr, strategy=s_setattr, examples=(200, 4000), rule="touches a derived MSM attribute or a private name", need={"msm": 1, "stub": 1, "touch-private": 1, "touch-derived": 1, "touch-property": 1, "source-reader-socket": 1, "source-pickle": 1, "source-copy": 1, "other-constructions-interleaved": 1, "frame-checksum-000000": 1}, sample=_short),
 ]
